@@ -44,11 +44,15 @@ Definition status_of (c : cfg) (s : store) (x : cand) : Z :=
 Definition value_of (c : cfg) (s : store) (x : cand) : Q :=
   c_obj x - thr_base c (look s (c_cell x)).
 
+Fixpoint qpow (q : Q) (n : nat) : Q := match n with O => 1 | S k => q * qpow q k end.
+
+Definition qnat (n : nat) : Q := inject_Z (Z.of_nat n).
+
 (** _compute_thresholds for one cell: ratio = (1-lr)^k, ratio*t + (sum/k)*(1-ratio) *)
 Definition batch_thr (c : cfg) (t : Q) (grp : list cand) : Q :=
-  let k := Z.of_nat (length grp) in
-  let ratio := Qpower (1 - lr c) k in
-  Qred (ratio * t + (Qsum (map c_obj grp) / inject_Z k) * (1 - ratio)).
+  let k := length grp in
+  let ratio := qpow (1 - lr c) k in
+  Qred (ratio * t + (Qsum (map c_obj grp) / qnat k) * (1 - ratio)).
 
 Definition new_thr (c : cfg) (s : store) (w : cand) (grp : list cand) : Q :=
   match tmin c with
@@ -110,8 +114,6 @@ Record archive := mkArch {
 Definition stats0 : stats := mkStats 0 0 0 0 None None.
 
 Definition arch_init (c : cfg) : archive := mkArch (init (cells c)) 0 stats0 None.
-
-Definition qnat (n : nat) : Q := inject_Z (Z.of_nat n).
 
 (** _stats_update(new_objective_sum, new_best_index), reading the store AFTER the write *)
 Definition stats_update (c : cfg) (a : archive) (s' : store) (sum' : Q) (bi : nat) : archive :=
